@@ -116,6 +116,8 @@ ReadFailed(e) ==
              (e.err = "injected" \/ (e.err = "eof" /\ b.ref.verdict = "eof" /\ pulled >= b.ref.end)))
   \* ... and byte for byte what compress/flate returns (its output equals the reference's, see BeginFailed)
   \cup Chk("C02.same_bytes", (b.std.verdict = "eof") => (e.ok /\ g2 <= b.std.len))
+  \* ... and a panic is not a way of returning them
+  \cup Chk("C02.no_panic", (b.std.verdict = "eof") => e.panic = "")
   \cup Chk("C15.correct_prefix", b.failing => (e.ok /\ g2 <= b.ref.len))
   \cup Chk("C15.sticky", (~first /\ rerr = "injected") => (e.err = "injected" /\ e.n = 0))
   \cup Chk("C15.not_invented", (first /\ e.err = "injected") => srcFailed)
@@ -132,6 +134,8 @@ End(e) ==
 
 EndFailed(e) ==
      Chk("C03.terminates", rerr # "nil" \/ b.partial)
+  \* a stream compress/flate accepts is read to its io.EOF (the caller's Reads were not cut short, the source did not fail)
+  \cup Chk("C02.reaches_eof", (b.std.verdict = "eof" /\ ~b.partial /\ ~srcFailed) => rerr = "eof")
   \cup Chk("C05.exact_end", (rerr = "eof" /\ b.exact /\ ~b.partial) => e.rest = b.sLen - b.ref.end)
   \cup Chk("C08.member_end", (rerr = "eof" /\ b.exact /\ b.member) => e.rest = b.sLen - b.ref.end)
   \cup Chk("C06.header", b.hdrCheck => e.hdrOK)
